@@ -26,7 +26,13 @@
      A             /answer fails AFTER the client opened the data channel and the handler started
      c<i> d<i> -<i>  the handler of session i ends (client closes / relay closes / bare ret)
    result: per op  c<count>h<len(ch)>p<polls of the op, '.'-separated | ->, each poll being
-                   <Clients figure>@<slots in use when the figure was computed>  *)
+                   <Clients figure>@<slots in use when the figure was computed>
+           markers (never passed off as a result):
+             !skipped:<result>  while running the op the adapter stepped over a handler's channel receive (LH _ HRecv)
+                                that was NOT enabled (tokens.ret() blocks on a drained channel): what follows is the
+                                state with that handler still parked.  Expected of the pinned machine (seq0 / start0:
+                                that is the double release); the repaired machine V1 never takes this path
+             !stuck             any other step of the op was not enabled  *)
 From Coq Require Import List NArith ZArith Bool Arith String.
 From Snow Require Import Lib.Wire Model.Tokens Model.ProxySession.
 Import ListNotations.
@@ -83,14 +89,21 @@ Definition op_labels (v : version) (sid : nat) (t : bytes) : option (list label 
   | [] => None
   end.
 
-(* a handler's blocked channel receive (possible in V0 only) leaves the state unchanged *)
-Fixpoint run_skip (v : version) (st : state) (ls : list label) : option state :=
+(* what the adapter must not hide *)
+Record flags := mkF { skipped : bool }.
+Definition no_flags : flags := mkF false.
+Definition MARK_SKIPPED : bytes := bs "!skipped:".
+Definition mark (f : flags) (r : bytes) : bytes := if skipped f then MARK_SKIPPED ++ r else r.
+
+(* a handler's blocked channel receive (possible in V0 only) leaves the state unchanged: the step is passed
+   over and the fact is RECORDED in the flags *)
+Fixpoint run_skip (v : version) (st : state) (f : flags) (ls : list label) : option (state * flags) :=
   match ls with
-  | [] => Some st
+  | [] => Some (st, f)
   | l :: ls' =>
       match step v st l with
-      | Some st' => run_skip v st' ls'
-      | None => match l with LH _ HRecv => run_skip v st ls' | _ => None end
+      | Some st' => run_skip v st' f ls'
+      | None => match l with LH _ HRecv => run_skip v st (mkF true) ls' | _ => None end
       end
   end.
 
@@ -108,10 +121,10 @@ Fixpoint run_ops (v : version) (st : state) (ops : list bytes) : option (list by
   | o :: ops' =>
       match op_labels v (gets st) o with
       | Some (ls, show) =>
-          match run_skip v st ls with
-          | Some st' =>
+          match run_skip v st no_flags ls with
+          | Some (st', f) =>
               match run_ops v st' ops' with
-              | Some r => Some (op_print st' (List.length (polls st)) show :: r)
+              | Some r => Some (mark f (op_print st' (List.length (polls st)) show) :: r)
               | None => None
               end
           | None => Some [bs "!stuck"]
@@ -138,10 +151,10 @@ Fixpoint start_ops (v : version) (st : state) (ops : list bytes) : option (list 
   | [] => Some []
   | o :: ops' =>
       if beq o (bs "B") then
-        match run_skip v st (drop_get st [LGet]) with
-        | Some st1 =>
+        match run_skip v st no_flags (drop_get st [LGet]) with
+        | Some (st1, f) =>
             match start_ops v st1 ops' with
-            | Some r => Some ((match step v st1 LGetSend with None => bs "B1" | Some _ => bs "B0" end) :: r)
+            | Some r => Some (mark f (match step v st1 LGetSend with None => bs "B1" | Some _ => bs "B0" end) :: r)
             | None => None
             end
         | None => Some [bs "!stuck"]
@@ -151,12 +164,12 @@ Fixpoint start_ops (v : version) (st : state) (ops : list bytes) : option (list 
                      else op_labels v (gets st) o in
       match sess_ls with
       | Some (LGet :: LGetSend :: rest, _) =>
-          match run_skip v st (drop_get st pre) with
-          | Some st1 =>
-              match run_skip v st1 rest with
-              | Some st2 =>
+          match run_skip v st no_flags (drop_get st pre) with
+          | Some (st1, f1) =>
+              match run_skip v st1 f1 rest with
+              | Some (st2, f2) =>
                   match start_ops v st2 ops' with
-                  | Some r => Some (poll_print st1 :: r)
+                  | Some r => Some (mark f2 (poll_print st1) :: r)
                   | None => None
                   end
               | None => Some [bs "!stuck"]
@@ -164,10 +177,10 @@ Fixpoint start_ops (v : version) (st : state) (ops : list bytes) : option (list 
           | None => Some [bs "!stuck"]
           end
       | Some (ls, _) =>
-          match run_skip v st ls with
-          | Some st' =>
+          match run_skip v st no_flags ls with
+          | Some (st', f) =>
               match start_ops v st' ops' with
-              | Some r => Some (bs "-" :: r)
+              | Some r => Some (mark f (bs "-") :: r)
               | None => None
               end
           | None => Some [bs "!stuck"]
